@@ -28,6 +28,7 @@ struct BdsTR {
     if (cert != CERT_H79) return 99;
     return shape_h79_compare(y.constraints(), z.constraints(), y.space_dimension());
   }
+  static int ppl_cert_compare_certs(int, const D&, const D&) { return 99; }
   static std::vector<WOp<D> > ops(int) {
     std::vector<WOp<D> > v;
     { WOp<D> o; o.name = "BHMZ05_widening_assign"; o.cert = CERT_H79; o.call = [](D& x, const D& y, unsigned* tp) { x.BHMZ05_widening_assign(y, tp); };
